@@ -19,6 +19,18 @@ import (
 // by (UnixNano, IsZero). It walks by reflection so that a field added later is
 // included automatically. Fields whose value is allowed to differ between
 // replicas are listed in skip.
+// VerifThrottle renders the node-local throttling state VerifDump leaves out.
+func VerifThrottle(i *IRCServer) string {
+	i.sessionsMu.RLock()
+	defer i.sessionsMu.RUnlock()
+	var l []string
+	for id, s := range i.sessions {
+		l = append(l, fmt.Sprintf("%d.%d:%d", id.Id, id.Reply, s.throttlingExponent))
+	}
+	sort.Strings(l)
+	return strings.Join(l, " ")
+}
+
 func VerifDump(i *IRCServer) string {
 	i.sessionsMu.RLock()
 	defer i.sessionsMu.RUnlock()
